@@ -66,6 +66,18 @@ def b_len(E, v):
     return _len(E, v)
 
 
+@B("slice")
+def b_slice(E, *a):
+    """slice(stop) / slice(start, stop[, step]): the same object the subscript syntax a[start:stop:step] builds"""
+    if len(a) == 1:
+        return slice(None, a[0], None)
+    if len(a) == 2:
+        return slice(a[0], a[1], None)
+    if len(a) == 3:
+        return slice(a[0], a[1], a[2])
+    raise PyRaise("TypeError", "slice expected at most 3 arguments")
+
+
 @B("range")
 def b_range(E, *a):
     if len(a) == 1:
